@@ -118,6 +118,23 @@ def base_local(body, local):
     return cur
 
 
+def named_dest(body, t):
+    """the named local a call's result ends up in (the destination itself or the local it is moved into next)"""
+    l = t.dest.local
+    for _ in range(4):
+        if body.local_name(l):
+            return l
+        nxt = None
+        for blk in body.blocks:
+            for s in blk.stmts:
+                if s.k == "a" and s.lhs.is_local() and s.rv.k == "use" and s.rv.ops[0].place is not None and s.rv.ops[0].place.is_local() and s.rv.ops[0].place.local == l:
+                    nxt = s.lhs.local
+        if nxt is None:
+            return l
+        l = nxt
+    return l
+
+
 def r1_r3(ctx):
     facts = ctx.facts
     r1 = Rule("C02.R1", "delivery only out of the AEAD: what is delivered is Ok(Message::decode(Ok(Session::decrypt_message(..)))) on every path", floor=14,
@@ -271,10 +288,12 @@ def r2(ctx):
     rule.check(okk, "Packet::decode: then exactly the static header bytes data[16..39] and the auth-data bytes data[39..39+n], nothing else", "Packet::decode|aad-parts",
                "the associated data is not IV || static header || auth-data of the received datagram: %s" % [x[2][:160] for x in parts], loc=pd.loc(tup.line))
     # the two later parts are the very buffers the header cipher unmasked (the expressions above cannot tell data[16..39] from its unmasked copy)
-    named = {pd.local_name(l): l for l in range(len(pd.locals)) if pd.local_name(l)}
-    for nm in ("static_header", "auth_data"):
-        if nm not in named:
-            raise AnchorError("Packet::decode: local `%s` not found" % nm)
+    # the two buffers are identified by role, not by name: the first and the second buffer the header cipher is applied to
+    ks = [(bi, t) for bi, t in pd.calls() if callee_matches(t, r"StreamCipher::apply_keystream$") and len(t.args) > 1 and t.args[1].place is not None]
+    ks.sort(key=lambda x: sum(1 for y in ks if y[0] != x[0] and must_pass(pd, [x[0]], via_blocks=[y[0]])))
+    if len(ks) != 2:
+        raise AnchorError("Packet::decode: %d apply_keystream calls (2 confirmed by hand: static header, auth-data)" % len(ks))
+    named = {"static_header": base_local(pd, ks[0][1].args[1].place.local), "auth_data": base_local(pd, ks[1][1].args[1].place.local)}
     order = []
     for bi, m, src, t in sorted(ws, key=lambda x: [y[0] for y in parts].index(x[0])):
         order.append((bi, base_local(pd, t.args[1].place.local) if t.args[1].place is not None else None))
@@ -472,9 +491,9 @@ def r4_r5(ctx):
         # the local behind the aad argument
         e_aad = canon(p.operand(t.args[3]))
         # find the Vec local written by extend_from_slice whose initial value equals e_aad
-        cands = [l for l in range(len(b.locals)) if b.local_name(l) == "authenticated_data"]
-        if len(cands) != 1:
-            raise AnchorError("Session::%s: authenticated_data local" % fn)
+        cands = [base_local(b, t.args[3].place.local)] if t.args[3].place is not None else []
+        if len(cands) != 1 or not b.local_name(cands[0]):
+            raise AnchorError("Session::%s: the local holding the associated data was not identified" % fn)
         ws = writes_into(b, p, cands[0])
         init = F(p.local(cands[0]))
         ext = [F(src[0]) for wb, m, src, wt in ws if m == "extend_from_slice"]
@@ -530,7 +549,8 @@ def r4_r5(ctx):
             okm = any(x[0] == "call" and short(x[1]).endswith("crypto::encrypt_message") for x in walk(msg_e))
             r4.check(okm, "Session::encrypt_message: packet.message is the AEAD output", "Session::encrypt_message|ciphertext", "Session::encrypt_message puts %s in the packet" % fmt(msg_e)[:160], loc=b.loc(t.line))
         else:
-            asg = [s for blk in b.blocks if blk.idx in b.live_blocks() for s in blk.stmts if s.k == "a" and s.lhs.proj and b.local_name(s.lhs.local) == "packet"]
+            pk_l = named_dest(b, newp[0][1])
+            asg = [s for blk in b.blocks if blk.idx in b.live_blocks() for s in blk.stmts if s.k == "a" and s.lhs.proj and s.lhs.local == pk_l and not any(x == "*" for x in s.lhs.proj)]
             flds = [(s, fmt(canon(p.rvalue(s.rv, 0)))) for s in asg]
             okm = len(flds) == 1 and "crypto::encrypt_message" in flds[0][1]
             r4.check(okm, "Session::encrypt_with_header: only packet.message is set afterwards, to the AEAD output", "Session::encrypt_with_header|ciphertext",
@@ -540,7 +560,12 @@ def r4_r5(ctx):
     eh = facts.one(r"crate::packet::Packet::encrypt_header$")
     r4.analysed(pe, eh)
     p = Prov(pe, facts)
-    bufl = [l for l in range(len(pe.locals)) if pe.local_name(l) == "buf"]
+    bufl = []
+    for blk in pe.blocks:
+        for st_ in blk.stmts:
+            if st_.k == "a" and st_.lhs.is_local() and st_.lhs.local == 0 and st_.rv.k == "use" and st_.rv.ops[0].place is not None and blk.idx in pe.live_blocks():
+                bufl.append(base_local(pe, st_.rv.ops[0].place.local))
+    bufl = sorted(set(bufl))
     parts = []
     for l in bufl:
         ws = writes_into(pe, p, l)
